@@ -134,7 +134,7 @@ def gen_type(rng, depth, o: Opts, hashable=False):
         inner = gen_type(rng, depth - 1, o)
         if inner['k'] in ('optional', 'none', 'any', 'union'):
             inner = T('int')
-        return T('optional', inner)
+        return opt_spelling(rng, T('optional', inner))
     if k == 'union':
         return gen_union(rng, depth, o)
     if k == 'namedtuple':
@@ -163,6 +163,13 @@ def _ty_for_lit(v):
     return T({int: 'int', str: 'str', float: 'float', bool: 'bool'}[type(v)])
 
 
+def opt_spelling(rng, t):
+    """Optional[X] is also spelled Union[None, X] (same meaning; the engines have a shortcut for two-member Unions)"""
+    if rng.random() < 0.25:
+        t['sp'] = 'none_first'
+    return t
+
+
 def gen_union(rng, depth, o: Opts):
     """Union of JSON-distinguishable members: distinct JSON kinds among str/int/float/bool/list/dict,
     optionally None, optionally tagged dataclasses."""
@@ -188,7 +195,7 @@ def gen_union(rng, depth, o: Opts):
     if len(members) == 1:
         members.append(T('none'))
     if len(members) == 2 and members[1]['k'] == 'none':
-        return T('optional', members[0])
+        return opt_spelling(rng, T('optional', members[0]))
     rng.shuffle(members)
     return T('union', *members)
 
